@@ -267,11 +267,13 @@ def build_model():
     for f in ("model.ml", "model.mli"):
         shutil.copy(os.path.join(COQ, f), d)
     shutil.copy(drv, d)
-    rc, o, e = run(["ocamlfind", "ocamlopt", "-O3", "-w", "-a", "-package", "zarith,str", "-linkpkg",
-                    "model.mli", "model.ml", "driver.ml", "-o", "driver"], cwd=d, timeout=600)
+    # the extracted tables (384 wheel-210 entries, ...) are deeply nested expressions: ocamlopt needs more than the default
+    # 8 MiB stack.  1st attempt: raise the soft stack limit; fallback: the bytecode compiler with its own stack limit.
+    cmd = "ocamlfind ocamlopt -w -a -package zarith,str -linkpkg model.mli model.ml driver.ml -o driver"
+    rc, o, e = run(["bash", "-c", "ulimit -s unlimited 2>/dev/null || ulimit -s $(ulimit -H -s) 2>/dev/null; exec " + cmd], cwd=d, timeout=900)
     if rc != 0:
-        rc, o, e = run(["ocamlfind", "ocamlopt", "-w", "-a", "-package", "zarith,str", "-linkpkg",
-                        "model.mli", "model.ml", "driver.ml", "-o", "driver"], cwd=d, timeout=600)
+        env = dict(os.environ, OCAMLFIND_COMMANDS="ocamlopt=ocamlopt.byte", OCAMLRUNPARAM="l=4000M")
+        rc, o, e = run(cmd.split(), cwd=d, timeout=1800, env=env)
     if rc != 0:
         raise BuildError("OCaml build failed:\n" + e[-6000:])
     open(st, "w").write(h)
